@@ -634,6 +634,11 @@ SHADOW_CLASS_NAMES = ["MISSING", "InvalidFieldValue", "cls", "decodebytes", "enc
                       "key", "mashumaro", "uuid", "iter_all_subclasses", "pass_through", "Fraction", "parse_timezone", "types"]
 SHADOW_MODULE_NAMES = ["value", "d", "cls", "dialect", "MISSING", "Field", "kwargs", "key", "self", "m", "variant"]
 
+# pairs of distinct identifiers that differ only in letters outside ASCII (all NFKC-stable, so the compiler keeps them as written)
+UNICODE_NAME_PAIRS = [("Größe", "Grüße"), ("Ünal", "Önal"), ("Jalapeño", "Jalapeńo"), ("Дом", "Дым"), ("Καλό", "Κακό"), ("Řád", "Žád"),
+                      ("X\u00e6", "X\u00f8"), ("数_a", "値_a"), ("Ære", "Øre"), ("naïve", "naíve")]
+SPEC_POSITIONS = [("{c}", "{v}"), ("List[{c}]", "[{v}]"), ("Optional[{c}]", "{v}"), ("Dict[str, {c}]", "{{'k': {v}}}"),
+                  ("Dict[str, List[{c}]]", "{{'k': [{v}, {v}]}}"), ("Tuple[{c}, ...]", "({v},)")]
 POSITIONS = [("{c}", "{v}"), ("List[{c}]", "[{v}]"), ("Optional[{c}]", "{v}"), ("Dict[str, {c}]", "{{'k': {v}}}"), ("Tuple[{c}, ...]", "({v},)")]
 
 
@@ -662,10 +667,16 @@ def _cls_src(kind: str, name: str, extra: int, indent: str = "") -> tuple[str, s
     return "\n".join(indent + ln for ln in src.splitlines()), val
 
 
+IDENTITY_TEMPLATES = ["same-qualname", "same-qualname", "clean-id", "functional-local", "bogus-module", "rebound",
+                      "mappingproxy", "defaultdict-local", "shadow-class", "shadow-class", "shadow-module",
+                      "control-local", "control-local", "control-unicode-local", "control-unicode-local", "control-unicode-local", "control-unicode-local",
+                      "make-dataclass-local", "generic-serializable-local"]
+# every template is instantiated at least once per run: schema idx < len(..) takes the idx-th distinct template, the rest are drawn
+IDENTITY_TEMPLATES_DISTINCT = list(dict.fromkeys(IDENTITY_TEMPLATES))
+
+
 def gen_identity_schema(rng: random.Random, idx: int, template: str | None = None) -> dict:
-    t = template or rng.choice(["same-qualname", "same-qualname", "clean-id", "functional-local", "bogus-module", "rebound",
-                                "mappingproxy", "defaultdict-local", "shadow-class", "shadow-class", "shadow-module",
-                                "control-local", "control-local", "make-dataclass-local", "generic-serializable-local"])
+    t = template or rng.choice(IDENTITY_TEMPLATES)
     module = f"c17i_{idx}"
     kind = rng.choice(["dc-mixin", "dc-plain", "enum", "intenum", "namedtuple", "pathlike"])
     pt, pv = rng.choice(POSITIONS)
@@ -673,7 +684,31 @@ def gen_identity_schema(rng: random.Random, idx: int, template: str | None = Non
     tags = {"identity:" + t, "idkind:" + kind, "idpos:" + pt}
     L = []
     codec = rng.random() < 0.3
-    if t in ("same-qualname", "control-local"):
+    if t == "control-unicode-local":
+        # identifiers are not ASCII-only: two local classes whose (distinct) names differ only in letters outside ASCII - every
+        # such letter is a word character, so clean_id keeps it and the two aliases stay distinct; the classes must be bound apart
+        na, nb = rng.choice(UNICODE_NAME_PAIRS)
+        if rng.random() < 0.5:
+            na, nb = nb, na
+        tags.add("unicode-pair:" + na + "/" + nb)
+        val = _cls_src(kind, na, 1, "    ")[1]
+        nest = rng.random() < 0.3
+        L.append("def mk():")
+        if nest:
+            # the non-ASCII letter sits in an enclosing class name: Größe.K / Grüße.K
+            L.append(f"    class {na}:")
+            L.append(_cls_src(kind, "K", 1, "        ")[0])
+            L.append(f"    class {nb}:")
+            L.append(_cls_src(kind, "K", 2, "        ")[0])
+            L.append(f"    return {na}.K, {nb}.K")
+            tags.add("unicode-pair-nested")
+        else:
+            L.append(_cls_src(kind, na, 1, "    ")[0])
+            L.append(_cls_src(kind, nb, 2, "    ")[0])
+            L.append(f"    return {na}, {nb}")
+        L.append("L1, L2 = mk()")
+        names = ["L1", "L2"]
+    elif t in ("same-qualname", "control-local"):
         nm2 = "L" if t == "same-qualname" else "L{n}"
         body, val = _cls_src(kind, "L" if t == "same-qualname" else "LNAME", 0, "    ")
         L.append("def mk(n):")
@@ -834,7 +869,7 @@ def gen_identity_schema(rng: random.Random, idx: int, template: str | None = Non
         L.append(f"CLASSES.extend([{', '.join(names)}])")
     if t == "generic-serializable-local":
         L.append("ROUNDTRIP.append(H)")
-    if not codec:
+    if not codec or t == "control-unicode-local":
         L += ident
     src = PRELUDE + "\n".join(L) + "\n"
     return {"src": src, "module": module, "tags": sorted(tags), "defloc": "identity:" + t, "idx": idx, "template": t}
@@ -1093,8 +1128,13 @@ def gen_multimod_schema(rng: random.Random, idx: int) -> dict:
     cn_b = cn if rng.random() < 0.7 else rng.choice(MM_CLSNAMES)
     kind = rng.choice(["dc-mixin", "dc-mixin", "dc-plain", "enum"])
     tags |= {"mm-sub:" + sa, "mm-sub:" + sb, "mm-class:" + cn, "mm-kind:" + kind, "mm-same-name:" + str(cn == cn_b)}
-    shape = rng.choice(["same-name", "same-name", "typevar-foreign", "typevar-foreign", "string-annotations", "string-annotations", "mixed"])
+    shape = rng.choice(["same-name", "same-name", "typevar-foreign", "typevar-foreign", "string-annotations", "string-annotations", "mixed",
+                        "generic-two-spec", "generic-two-spec", "generic-two-spec"])
     tags.add("mm-shape:" + shape)
+    if shape == "generic-two-spec" and cn != cn_b and rng.random() < 0.6:
+        tags.discard("mm-same-name:False")
+        cn_b = cn
+        tags.add("mm-same-name:True")
     # user names equal to attributes of the builder object (its __dict__ must never be a namespace of annotations)
     force_bare = False
     if shape in ("string-annotations", "mixed") and rng.random() < 0.45:
@@ -1164,6 +1204,48 @@ def gen_multimod_schema(rng: random.Random, idx: int) -> dict:
         L.append(f"MAKE['H'] = lambda: H({pv0.format(v=val.format(r=ra))}, {pv1.format(v=val.format(r=rb))})")
         L.append(f"IDENT.append((H, 'f0', {ra})); IDENT.append((H, 'f1', {rb}))")
         holders.append("H")
+    if shape == "generic-two-spec":
+        # ONE generic dataclass specialised with BOTH classes (same short name, different modules), the second specialisation compiled
+        # after the first - for two fields of one holder or for two different holders: a specialised method found on the generic class
+        # under the key of the type arguments is reused, so the key has to tell the two classes apart (and the order of the arguments)
+        pair = rng.random() < 0.3
+        emix = rng.choice(["DataClassDictMixin", "DataClassJSONMixin", ""])
+        tags |= {"spec-generic:" + ("pair" if pair else "single"), "spec-generic-mixin:" + (emix or "none")}
+        if pair:
+            env_src = (f"T = TypeVar('T')\nU = TypeVar('U')\n@dataclass\nclass Page({(emix + ', ') if emix else ''}Generic[T, U]):\n"
+                       f"    first: T\n    second: List[U]\n    total: int = 0")
+            sp0, sp1 = f"Page[{ra}, {rb}]", f"Page[{rb}, {ra}]"
+            sv0 = f"Page({val.format(r=ra)}, [{val.format(r=rb)}])"
+            sv1 = f"Page({val.format(r=rb)}, [{val.format(r=ra)}])"
+        else:
+            body = rng.choice(["T", "List[T]", "List[T]", "Optional[T]", "Dict[str, T]"])
+            bval = {"T": "{v}", "Optional[T]": "{v}", "List[T]": "[{v}, {v}]", "Dict[str, T]": "{{'k': {v}}}"}[body]
+            tags.add("spec-body:" + body)
+            env_src = f"T = TypeVar('T')\n@dataclass\nclass Page({(emix + ', ') if emix else ''}Generic[T]):\n    items: {body}\n    total: int = 0"
+            sp0, sp1 = f"Page[{ra}]", f"Page[{rb}]"
+            sv0 = f"Page({bval.format(v=val.format(r=ra))})"
+            sv1 = f"Page({bval.format(v=val.format(r=rb))})"
+        if rng.random() < 0.5:
+            aux[1][1] += env_src + "\n"
+            imports.append(f"from {ma} import Page")
+            tags.add("spec-generic-in:package-a")
+        else:
+            L.append(env_src)
+            tags.add("spec-generic-in:main")
+        (pt0, pv0), (pt1, pv1) = rng.choice(SPEC_POSITIONS), rng.choice(SPEC_POSITIONS)
+        tags |= {"spec-pos:" + pt0, "spec-pos:" + pt1}
+        if rng.random() < 0.5:
+            tags.add("spec-holders:two")
+            L.append(f"@dataclass\nclass OldReply{base}:\n    pages: {pt0.format(c=sp0)}\n    z: int = 0")
+            L.append(f"@dataclass\nclass NewReply{base}:\n    pages: {pt1.format(c=sp1)}\n    z: int = 0")
+            L.append(f"MAKE['OldReply'] = lambda: OldReply({pv0.format(v=sv0)})")
+            L.append(f"MAKE['NewReply'] = lambda: NewReply({pv1.format(v=sv1)})")
+            holders += ["OldReply", "NewReply"]
+        else:
+            tags.add("spec-holders:one")
+            L.append(f"@dataclass\nclass Reply{base}:\n    f0: {pt0.format(c=sp0)}\n    f1: {pt1.format(c=sp1)}\n    z: int = 0")
+            L.append(f"MAKE['Reply'] = lambda: Reply({pv0.format(v=sv0)}, {pv1.format(v=sv1)})")
+            holders.append("Reply")
     if shape in ("typevar-foreign", "mixed"):
         # the generic base lives with package A (or in the main module), the argument comes from package B only
         body = rng.choice(["T", "T", "Optional[T]", "List[T]", "Dict[str, T]"])
